@@ -338,8 +338,14 @@ def measurements_twin(rng):
         m2 = Measurements.from_diffusion_curves_second(cs)
         return {"x1": [F(q.x) for q in m1], "t1": [F(q.t) for q in m1], "p1": [F(q.p) for q in m1],
                 "x2": [F(q.x) for q in m2], "t2": [F(q.t) for q in m2], "p2": [F(q.p) for q in m2]}
+    def desc(cs):
+        # the supplied set as the specification sees it (Extract.tla): curves in the caller's order, points in the given order
+        return [{"T": F(c.feed_temperature), "pts": [{"x": F(q.p), "xtype": q.type, "P": [F(c.permeances[j][0].value), F(c.permeances[j][1].value)]}
+                                                     for j, q in enumerate(c.feed_compositions)]} for c in cs.diffusion_curves]
+    seta, setb = desc(csa), desc(csb)              # described BEFORE the extraction is asked for
     return [{"ev": "MeasTwin", "rel": "rebase", "model": "NRTL", "mode": "vac", "mixname": mix.name, "probe": False, "d3": [],
-             "a": ex(csa), "b": ex(csb)}]
+             "M1": F(mix.first_component.molecular_weight), "M2": F(mix.second_component.molecular_weight),
+             "seta": seta, "setb": setb, "a": ex(csa), "b": ex(csb)}]
 
 
 def extras_job(job):
